@@ -214,9 +214,16 @@ static long long bcls(RegisterAccessCode c)
     default: return 1;
     }
 }
+#include "gen/macro_table.inc"
+static int is_macro;
 static void drop(void)
 {
     if (!have) return;
+    if (is_macro) {
+        for (int i = 0; i < na; i++) { if (store[i] && A[i].kind == 1) xfree(store[i]); store[i] = NULL; }
+        areas = NULL; entries = NULL; have = 0; na = nr = 0; is_macro = 0;
+        return;
+    }
     for (int i = 0; i < na; i++) if (store[i]) { xfree(store[i]); store[i] = NULL; }
     for (int i = 0; i < MAXA; i++) if (decoy[i]) { xfree(decoy[i]); decoy[i] = NULL; }
     xfree(areas); xfree(entries);
@@ -357,6 +364,41 @@ void adapter_exec(Ev *ev)
         } else {
             obs(ev, (long long)ri.pos.entry);
         }
+        return;
+    }
+    if (ev_is(ev, "tmacro")) {
+        /* the table of gen/macro_table.inc, written with the library's public construction macros (the arguments of the event repeat
+         * its description for the model; the adapter does not use them) */
+        drop();
+        be = (int)ev->a[0];
+        na = M_NA; nr = M_NR; ps_area = -1; is_macro = 1;
+        areas = M_areas; entries = M_entries;
+        for (int i = 0; i < na; i++) {
+            A[i].base = M_meta[i][0]; A[i].size = M_meta[i][1]; A[i].rd = M_meta[i][2]; A[i].wr = M_meta[i][3];
+            A[i].skip = M_meta[i][4]; A[i].hasw = M_meta[i][5]; A[i].kind = M_meta[i][6];
+            if (A[i].kind == 1) {
+                store[i] = xblock(sizeof(RegisterAtom) * (size_t)A[i].size);
+                memset(store[i], 0, sizeof(RegisterAtom) * (size_t)A[i].size);
+            } else {
+                store[i] = areas[i].mem;
+                memset(store[i], 0x77, sizeof(RegisterAtom) * (size_t)A[i].size);
+            }
+            memset(&areas[i].entry, 0x5A, sizeof areas[i].entry);
+        }
+        memset(&T, 0, sizeof T);
+        T.area = areas; T.entry = entries;
+        register_make_bigendian(&T, be != 0);
+        have = 1;
+        in_init = 1;
+        RegisterInit ri = register_init(&T);
+        in_init = 0;
+        obs(ev, (long long)ri.code);
+        if (ri.code == REG_INIT_SUCCESS) {
+            obs(ev, 0);
+            for (int i = 0; i < na; i++) { obs(ev, areas[i].entry.first); obs(ev, areas[i].entry.last); obs(ev, areas[i].entry.count); }
+            obs(ev, -7);
+            image(ev);
+        } else obs(ev, (long long)ri.pos.entry);
         return;
     }
     if (ev_is(ev, "tinitbig")) {
